@@ -23,8 +23,8 @@ from __future__ import annotations
 import itertools
 
 TARGETS2 = {"S": "s <<= {e}", "O": "self.o <<= {e}", "V": "v @= {e}", "P": "self.p ^= {e}", "SN": "s.next = {e}", "VV": "v.value = {e}",
-            "PP": "self.p.push = {e}"}
-TARGETS1 = {"S0": "s[0] <<= {e}", "M": "mem[self.b] <<= {e}", "M1": "mem[1] <<= {e}", "S10": "s[1:0][1] <<= {e}"}
+            "PP": "self.p.push = {e}", "PN": "self.pn ^= {e}"}
+TARGETS1 = {"PN0": "self.pn[0] ^= {e}", "S0": "s[0] <<= {e}", "M": "mem[self.b] <<= {e}", "M1": "mem[1] <<= {e}", "S10": "s[1:0][1] <<= {e}"}
 EXPR2 = {"a": "self.a", "s": "s", "v": "v", "s1": "s + 1", "v1": "v + 1", "o": "self.o", "k2": "2", "fa": "pick(self.a)", "fs": "pick(s)",
          "ie": "(self.a if self.c else s)"}
 EXPR1 = {"c": "self.c", "s0": "s[0]", "mb": "mem[self.b]", "a1": "self.a[1]", "v0": "v[0]"}
@@ -96,29 +96,33 @@ class Ref:
         self.on_reset = on_reset
         self.ond = None
         self.onr = 0
+        self.onr2 = 0
         self.orst = 0
         self.reset_state()
 
     def reset_state(self):
         self.st = {"s": 0, "mem": (0, 0), "v": 0, "o": 0}
         self.p = 0
+        self.pn = 0
 
     def snapshot(self):
         st = self.st
-        return (st["s"], st["mem"], st["v"], st["o"], self.p, self.ond, self.onr, self.orst)
+        return (st["s"], st["mem"], st["v"], st["o"], self.p, self.ond, self.onr, self.orst, self.onr2, self.pn)
 
     def restore(self, sn):
         self.st = {"s": sn[0], "mem": sn[1], "v": sn[2], "o": sn[3]}
-        self.p, self.ond, self.onr, self.orst = sn[4:]
+        self.p, self.ond, self.onr, self.orst, self.onr2, self.pn = sn[4:]
 
     def do_reset(self):
+        pn = self.pn  # noreset: keeps its value while reset is active
         self.reset_state()
+        self.pn = pn
         self.orst = 3 if self.on_reset else 0
 
     def regs(self):
-        d = {"o": self.st["o"], "p": self.p}
+        d = {"o": self.st["o"], "p": self.p, "pn": self.pn}
         if self.c04:
-            d.update(ond=self.ond, onr=self.onr, orst=self.orst)
+            d.update(ond=self.ond, onr=self.onr, orst=self.orst, onr2=self.onr2)
         return d
 
     def comb(self, inp):
@@ -136,6 +140,7 @@ class Ref:
         mem_written = False
         sbits = {}  # bit index -> value for partial writes to s
         push = None
+        pushn = [None]
 
         def run(blk):
             nonlocal push, mem_written
@@ -150,11 +155,15 @@ class Ref:
                         nxt["o"] = val
                     elif k in ("V", "VV"):
                         st["v"] = val
+                    elif k == "PN":
+                        pushn[0] = val
                     else:
                         push = val
                 elif k in TARGETS1:
                     val = ev1(s_[1], st, inp)
-                    if k == "S0":
+                    if k == "PN0":
+                        pushn[0] = ((pushn[0] or 0) & 2) | val
+                    elif k == "S0":
                         sbits[0] = val
                     elif k == "S10":
                         sbits[1] = val
@@ -221,9 +230,11 @@ class Ref:
             new["mem"] = tuple(nmem)
         self.st = new
         self.p = push if push is not None else 0
+        self.pn = pushn[0] if pushn[0] is not None else 0
         if self.c04:
             self.ond = inp[0]
             self.onr = inp[0]
+            self.onr2 = inp[0]
             self.orst = 1
         return self.regs()
 
@@ -247,11 +258,14 @@ def render(prog, reset=None, entity="T", locals_in_body=False, c04=False, on_res
         L.append("    rst = Port.input(Bit)")
     L += ["    a = Port.input(Unsigned[2])", "    b = Port.input(Unsigned[1])", "    c = Port.input(Bit)",
           "    o = Port.output(Unsigned[2], default=0)", "    p = Port.output(Unsigned[2], default=0)",
+          "    pn = Port.output(Unsigned[2], default=0, noreset=True)",
           "    oa = Port.output(Unsigned[2])", "    oc = Port.output(Unsigned[2])", "    os = Port.output(Unsigned[2])",
           "    om0 = Port.output(Bit)", "    om1 = Port.output(Bit)"]
     if c04:
         L += ["    ond = Port.output(Unsigned[2])", "    onr = Port.output(Unsigned[2], default=0, noreset=True)",
-              "    orst = Port.output(Unsigned[2], default=0)"]
+              "    onr2 = Port.output(Unsigned[2], default=0, noreset=True)", "    orst = Port.output(Unsigned[2], default=0)"]
+    if reset is not None and reset.get("step_cond"):
+        L.append("    en = Port.input(Bit)")
     L += ["    def architecture(self):",
           "        s = Signal[Unsigned[2]](0)", "        mem = Signal[Array[Bit, 2]]([False, False])", "        v = Variable[Unsigned[2]](0)",
           "        def pick(x):", "            if self.c:", "                return x", "            return x + 1",
@@ -267,10 +281,12 @@ def render(prog, reset=None, entity="T", locals_in_body=False, c04=False, on_res
     if reset is None:
         L.append("        @std.sequential(std.Clock(self.clk))")
     else:
-        L.append(f"        @std.sequential(std.Clock(self.clk), std.Reset(self.rst, is_async={reset['is_async']}, active_low={reset['active_low']}){onr})")
+        sc = ", step_cond=lambda: self.en" if reset.get("step_cond") else ""
+        L.append(f"        @std.sequential(std.Clock(self.clk), std.Reset(self.rst, is_async={reset['is_async']}, active_low={reset['active_low']}){sc}{onr})")
     L += ["        def proc():", "            nonlocal s, v"]
     if c04:
-        L += ["            self.ond <<= self.a", "            self.onr <<= self.a", "            self.orst <<= 1"]
+        L += ["            self.ond <<= self.a", "            self.onr <<= self.a", "            self.orst <<= 1",
+              "            self.onr2[0] <<= self.a[0]", "            self.onr2[1:1] <<= self.a[1:1]"]
     L += block(prog, 3)
     L.append("")
     return "\n".join(L)
@@ -323,8 +339,8 @@ def atoms(level):
     """level 0: core atoms; 1: all"""
     if level == 0:
         t2 = [("S", "a"), ("S", "s1"), ("S", "v"), ("O", "s"), ("O", "v"), ("O", "a"), ("V", "v1"), ("V", "a"), ("V", "s"), ("P", "a"),
-              ("P", "v"), ("S", "fa"), ("O", "ie")]
-        t1 = [("S0", "c"), ("M", "c"), ("M1", "s0"), ("S0", "mb")]
+              ("P", "v"), ("S", "fa"), ("O", "ie"), ("PN", "a")]
+        t1 = [("S0", "c"), ("M", "c"), ("M1", "s0"), ("S0", "mb"), ("PN0", "c")]
     else:
         t2 = [(t, e) for t in TARGETS2 for e in EXPR2]
         t1 = [(t, e) for t in TARGETS1 for e in EXPR1]
